@@ -31,7 +31,7 @@ CHECKS = {
     "C18": ("F", "§5 C18", "counters vs ledger at every instant end; independent occupancy integral vs reported time average; cycle-time sum; timestamps"),
     "C19": ("F", "§5 C19", "differential oracle: every enumerated run twice in-process and in 3 fresh interpreters (PYTHONHASHSEED 0/1/4242); monotone clock in every run"),
     "C20": ("F", "§5 C20", "every run of the full grammar incl. conveyors must finish without exception or zero-time livelock; every invalid configuration must raise"),
-    "C12": ("S", "§5 C12", "conveyor edges: capacity, entry order, entry spacing vs kinematic reference, minimum and exact travel time"),
+    "C12": ("S", "§5 C12", "conveyor edges: capacity, entry order, entry spacing vs kinematic reference, minimum and exact travel time; plus, with the factory engine, the necessary wall-clock conditions (order, spacing, travel time, capacity) on every conveyor of the configuration grammar incl. two belts in a row"),
     "C13": ("S", "§5 C13", "kinematic reference (stop / close-up) vs published availability at every instant end; no admission during a non-accumulating stall"),
     "C14": ("S", "§5 C14", "fleet batch / round-trip clauses from load times and observed availability times (departure only when full or when a waiting period ends, one full round trip, whole batch together, nobody left behind, loading order, the fleet's own process never dies); plus, with the factory engine, loading order through every fleet of the configuration grammar incl. 30-item runs"),
 }
